@@ -95,4 +95,22 @@ theorem subquery_start_spec (lo interval : Int) (hi : 0 < interval) :
       · show (if s0 ≤ lo then s0 + interval else s0) - interval ≤ lo
         rw [if_neg hnle]; show interval * (Int.tdiv lo interval) - interval ≤ lo; omega
 
+theorem stepsFrom_ge (i : Int) (hi : 0 ≤ i) (n : Nat) (s y : Int) (hy : y ∈ stepsFrom s i n) : s ≤ y := by
+  rw [mem_stepsFrom] at hy
+  obtain ⟨j, _, rfl⟩ := hy
+  have : 0 ≤ (j : Int) * i := Int.mul_nonneg (by omega) hi
+  omega
+
+theorem stepsFrom_pairwise (i : Int) (hi : 0 ≤ i) : ∀ (n : Nat) (s : Int), (stepsFrom s i n).Pairwise (· ≤ ·) := by
+  intro n
+  induction n with
+  | zero => intro s; simp [stepsFrom]
+  | succ n ih =>
+    intro s
+    simp only [stepsFrom, List.pairwise_cons]
+    refine ⟨fun y hy => ?_, ih (s + i)⟩
+    have := stepsFrom_ge i hi n (s + i) y hy
+    omega
+
+
 end Prom.Selectors
